@@ -59,14 +59,6 @@ Theorem C19_cmap_read : forall t, wf_cmap t -> parse_cmap (render_cmap t) = Ok (
 Proof. exact cmap_read. Qed.
 Print Assumptions C19_cmap_read.
 
-(** the writer's tokens are that spelling: write_cid / write_unicode emit <…> with two upper-case hex
-    digits per byte of the big-endian code / of the UTF-16BE form of the string *)
-Theorem C19_write_tokens_standard :
-  (forall c, c < 65536 -> write_cid c = hstr (cid_bytes c)) /\
-  (forall u, wf_ustr u -> write_unicode u = hstr (utf16be_bytes u)).
-Proof. exact (conj write_cid_std write_unicode_std). Qed.
-Print Assumptions C19_write_tokens_standard.
-
 (** the full statement about the writer; NOT proved universally (see DESIGN §12.C19): validated on every
     generated map by the correspondence mode cmap_rt against the specification, and here on a concrete map *)
 Definition C19_cmap_rt_full_statement : Prop :=
